@@ -432,10 +432,15 @@ def run(ctx):
             for chunk in [hs[j:j + 40] for j in range(0, len(hs), 40)]:
                 units.append((cfgs[ci], chunk, ci))
         nxt = {i: [] for i in frontier}
+        level_out = []
         for res in ctx.pmap(_expand_wrapper, units):
             st, out, ci = res
             total.merge(st)
-            for key, h in out:
+            level_out.extend((ci, key, h) for key, h in out)
+        # deterministic whatever order the workers finish in: the shortest-then-smallest history represents a state
+        level_out.sort(key=lambda t: (t[0], t[1], len(t[2]), repr(t[2])))
+        for ci, key, h in level_out:
+            for key, h in [(key, h)]:
                 k = (ci, key)
                 if k in seen:
                     continue
